@@ -112,6 +112,7 @@ def run(ctx):
         _sentinel(ctx, cfg, prog, mod)
         _lookuperr(ctx, cfg, prog, mod)
         _eqorder(ctx, cfg, prog, mod)
+        _seqarity(ctx, cfg, prog, mod)
         _gates(ctx, cfg, prog, mod)
     return ctx.finish(EXPLANATION)
 
@@ -120,6 +121,81 @@ POINT_SER = '<geometry::point::Point as geometry::point::_::_serde::Serialize>::
 NONFINITE_TRUE = ('is_nan', 'is_infinite')
 FINITE_FALSE = ('is_finite_generic', 'is_finite')
 FPCAT_NONFINITE = {0, 1}       # std::num::FpCategory::{Nan, Infinite} (declaration order)
+
+
+def _seqarity(ctx, cfg, prog, mod):
+    """SEQARITY: a fixed-arity sequence reader (`Point`'s coordinate array) must refuse a sequence that ends early.
+    In every `visit_seq` of the crate: when the body branches on the Option returned by `next_element` (a `while let
+    Some(..)` / `match`), every path from the exhausted (`None`) side to an Ok exit passes an edge decided by a
+    comparison with the const generic arity (`len == D`, `len < D` ..).  A reader that turns `None` into an error
+    through `ok_or_else` / `ok_or` has no such branch and is fine as it is."""
+    import gate
+    import valueflow
+    ctx.rule('SEQARITY', 'a fixed-arity sequence reader refuses input that ends early')
+    n = 0
+    for q, b in sorted(prog.bodies.items()):
+        if b.kind == 'closure' or not q.endswith('::visit_seq') or not b.file.startswith('src/') or '::tests::' in q:
+            continue
+        n += 1
+        al = mod.aliases(q)
+        uses = flow._collect_uses(b)
+        none_starts = []
+        for bb, t in b.calls():
+            if not (t.callee or t.resolved or '').rsplit('::', 1)[-1].startswith('next_element'):
+                continue
+            # locals carrying the Option payload: follow the result through `?` (branch / field moves)
+            carried = set()
+            work = [t.dest.local] if t.dest is not None and t.dest.is_local() else []
+            while work:
+                l = work.pop()
+                if l in carried:
+                    continue
+                carried.add(l)
+                for blk in b.blocks:
+                    for s_ in blk.stmts:
+                        if s_.kind == 'A' and s_.place.is_local() and s_.rv.k in ('use',) and s_.rv.ops and \
+                                s_.rv.ops[0].place is not None and s_.rv.ops[0].place.local == l:
+                            work.append(s_.place.local)
+                    tt = blk.term
+                    if tt.k == 'call' and (tt.callee or '').rsplit('::', 1)[-1] == 'branch' and tt.args and \
+                            tt.args[0].place is not None and tt.args[0].place.local == l and tt.dest is not None and tt.dest.is_local():
+                        work.append(tt.dest.local)
+            for blk in b.blocks:
+                if blk.cleanup or blk.term.k != 'switch' or blk.term.discr.place is None:
+                    continue
+                d = b.single_def(blk.term.discr.place.local) if blk.term.discr.place.is_local() else None
+                if d is None or d[1] == 'term' or d[2].rv.k != 'discr' or d[2].rv.place is None or d[2].rv.place.local not in carried:
+                    continue
+                if not b.locals[d[2].rv.place.local].startswith('std::option::Option<'):
+                    continue
+                listed = {v: tg for v, tg in blk.term.values}
+                none_t = listed.get(0, blk.term.otherwise if 0 not in listed else None)
+                if none_t is not None:
+                    none_starts.append(none_t)
+        site = '%s:%d' % (b.file, b.line)
+        if not none_starts:
+            ctx.ob('SEQARITY', q, cfg, True, 'no branch on the Option of next_element: an early end is turned into an error by a combinator', site=site)
+            continue
+        # arity guards: switch edges decided by a comparison with the const generic D
+        guards = set()
+        for blk in b.blocks:
+            if blk.cleanup or blk.term.k != 'switch' or blk.term.discr.place is None or not blk.term.discr.place.is_local():
+                continue
+            d = b.single_def(blk.term.discr.place.local)
+            if d is None or d[1] == 'term' or d[2].rv.k != 'bin' or d[2].rv.raw.get('op') not in ('Eq', 'Ne', 'Lt', 'Le', 'Gt', 'Ge'):
+                continue
+            if any(o.kind == 'k' and isinstance(o.const, dict) and o.const.get('v') == 'D' for o in d[2].rv.ops):
+                for s_ in b.succs(blk.idx):
+                    guards.add((blk.idx, s_))
+        oks = [e['bb'] for e in gate.success_exit_blocks(b)]
+        reach = flow.reach_edges(b, none_starts, avoid_edges=guards)
+        bad = [x for x in oks if x in reach]
+        ctx.ob('SEQARITY', q, cfg, not bad,
+               'from the exhausted side of next_element an Ok exit is %s' % (
+                   'reachable only through a comparison with the arity D' if not bad else
+                   'reachable without any comparison with the arity D: a coordinate array that is too short is loaded, the missing '
+                   'coordinates keep their initial value'), site=site)
+    ctx.floor('visit_seq readers in the crate', 1, n, cfg)
 
 
 def _sentinel(ctx, cfg, prog, mod):
